@@ -150,7 +150,111 @@ def gen_program(rng):
         if not any(st == ["activate", x] or st == ["activate", y] for st in _walk(body)):
             body.insert(0, ["activate", x])
         prog["cycle"] = [x, y]
+    if rng.random() < 0.35:
+        _g_race(rng, prog)
     return prog
+
+
+def _g_race(rng, prog):
+    """dying-sender race: two flows wait for the SAME event; one of them (the killer) thereby ends the other one's
+    parent (it finishes while the parent awaits it / an or-group or `when` scope closes / it stops the parent
+    explicitly), the other one (the sender) executes a statement that only QUEUES an internal event at that moment
+    (`activate` of a flow that may already be activated by a living flow, `start` / `await` of a flow, start of an
+    action).  Depending on the order in which the interpreter advances the two heads the sender is dead when its
+    queued event is processed.  Also: two activators of the same flow that end on the event on which the activated
+    flow itself ends (restart queued while the last activator disappears)."""
+    flows, kinds = prog["flows"], prog["kinds"]
+    names = [n for n in flows if n != "main"]
+    # host: main or an existing started flow starts the wrapper; the flows the sender refers to come later in the call DAG
+    host = rng.choice(["main"] + [n for n in names if kinds[n] == "sub" and rng.random() < 0.5])
+    later = names if host == "main" else names[names.index(host) + 1:]
+    subs = [x for x in later if kinds[x] == "sub"]
+    actv = [x for x in later if kinds[x] == "act"]
+    e = rng.choice(EVENTS)
+    tag = f"r{len(names)}"
+    rk, rs, rt = tag + "k", tag + "s", tag + "t"
+    r = rng.random()
+    new = {}
+    if r < 0.55 or not subs:
+        if actv and rng.random() < 0.7:
+            a = rng.choice(actv)
+        else:
+            a = tag + "a"
+            new[a] = [rng.choice([["match", rng.choice(EVENTS)], ["start_act", rng.choice(SCRIPTS)]]), ["match", rng.choice(EVENTS)]]
+            kinds[a] = "act"
+        x = ["activate", a]
+    elif r < 0.85:
+        a = None
+        x = [rng.choice(["start", "await"]), rng.choice(subs)]
+    else:
+        a = None
+        x = ["start_act", rng.choice(SCRIPTS)]
+    form = rng.choice(["ref", "ref", "ref", "ref", "or", "await", "when", "stop", "stop", "twin"])
+    if form == "twin" and a is None:
+        form = "ref"
+    tail = [["match", rng.choice(EVENTS + ["Never"])]]
+    if rng.random() < 0.3:
+        tail = [["start_act", rng.choice(SCRIPTS)]] + tail
+    killer = [["match", e]]
+    sender = [["match", e], x] + tail
+    if form == "twin":
+        # both activate `a` and end on `e`; `a` itself ends on `e` too
+        killer = [["activate", a], ["match", e]]
+        sender = [["activate", a], ["match", e]]
+        body = new.get(a, flows.get(a))
+        body.append(["match", e])
+        tie = [["start", rk], ["start", rs]] if rng.random() < 0.5 else [["start", rs], ["start", rk]]
+        tie.append(["match", rng.choice(EVENTS + ["Never"])])
+    elif form == "ref":
+        first = [["start_as", rk, "k"], ["start", rs]]
+        if rng.random() < 0.25:
+            first.reverse()
+        if rng.random() < 0.25:
+            killer = [["match", e], ["abort"]]   # the awaited flow FAILS: the awaiting parent fails with it
+        tie = first + [["match_fin", "k"]]
+    elif form == "or":
+        pair = [["flow", rk], ["flow", rs]]
+        if rng.random() < 0.4:
+            pair.reverse()
+        tie = [["await_group", "or"] + pair]
+    elif form == "await":
+        tie = [["start", rs], ["await", rk]]
+    elif form == "when":
+        cs = [[["flow", rk], [["match", rng.choice(EVENTS)]]], [["flow", rs], [["match", rng.choice(EVENTS)]]]]
+        if rng.random() < 0.4:
+            cs.reverse()
+        tie = [["when", cs, None]]
+    else:  # "stop": the killer stops the sender's parent explicitly
+        killer = [["match", e], ["stopflow", rt], ["match", "Never"]]
+        tie = [["start", rs], ["match", "Never"]]
+    new[rk], new[rs] = killer, sender
+    kinds[rk] = kinds[rs] = kinds[rt] = "sub"
+    if rng.random() < 0.3 and form != "stop":
+        tie = tie + [["match", rng.choice(EVENTS)]]
+    new[rt] = tie
+    # a living flow usually holds the activation already
+    ins = [["start", rt]]
+    if form == "stop":
+        ins = [["start", rk], ["start", rt]] if rng.random() < 0.5 else [["start", rt], ["start", rk]]
+    end = None
+    if a is not None and rng.random() < 0.9:
+        if rng.random() < 0.6:
+            # a flow of its own holds the activation and ends on another event: the genuine (last) activator
+            end = rng.choice([v for v in EVENTS if v != e])
+            rh = tag + "h"
+            new[rh] = [["activate", a], ["match", end]]
+            kinds[rh] = "sub"
+            flows["main"].insert(0, ["start", rh])
+        else:
+            flows[rng.choice(["main", host])].insert(0, ["activate", a])
+    hb = flows[host]
+    pos = rng.randrange(0, min(2, len(hb)) + 1)
+    hb[pos:pos] = ins
+    # the new flows go BEFORE main (rendering order is irrelevant to the interpreter, `main` stays last for readability)
+    main = flows.pop("main")
+    flows.update(new)
+    flows["main"] = main
+    prog["race"] = {"form": form, "event": e, "x": x, "end": end}
 
 
 def _used_events(prog):
@@ -182,6 +286,14 @@ def gen_history(rng, tier, prog=None):
             h.append({"act": "Finished", "k": rng.randrange(0, 6), "pick": rng.choice(["any", "live", "stopped"])})
         else:
             h.append({"act": "Started", "k": rng.randrange(0, 6), "pick": rng.choice(["any", "live", "stopped"])})
+    race = (prog or {}).get("race")
+    if race and rng.random() < 0.6:
+        # the race event, later the event that ends the flow holding the activation (if there is one), then some more
+        i = rng.randrange(0, len(h) + 1)
+        h.insert(i, {"ev": race["event"]})
+        j = rng.randrange(i + 1, len(h) + 1)
+        h.insert(j, {"ev": race.get("end") or rng.choice(EVENTS)})
+        h.append({"ev": rng.choice(used) if used else rng.choice(EVENTS)})
     return h
 
 
@@ -237,6 +349,10 @@ def _render(stmts, ind, out):
             out.append(f"{p}abort")
         elif k == "restart_label":
             out.append(f"{p}start_new_flow_instance:")
+        elif k == "start_as":
+            out.append(f"{p}start {st[1]} as ${st[2]}")
+        elif k == "match_fin":
+            out.append(f"{p}match ${st[1]}.Finished()")
         else:
             raise ValueError(k)
 
@@ -271,6 +387,8 @@ class _Rec:
         self.end_pending = None  # head reached end of flow: waiting for the decision
         self.ends = []
         self.guard = 0
+        self.activations = []   # executed `activate` statements: {"step", "src", "fid"}
+        self.step = 0
 
 
 def _canon(x):
@@ -431,6 +549,20 @@ def _install():
         return o_pushleft(state, event)
 
     sm._push_left_internal_event = w_pushleft
+    o_push = sm._push_internal_event
+
+    def w_push(state, event):
+        # history of executed `activate` statements (the `send StartFlow(activated=True)` element of `slide`): who
+        # activated which flow, recorded when the statement is EXECUTED, independent of what is later done with it
+        R = REC
+        if R is not None and getattr(event, "name", None) == "StartFlow":
+            a = event.arguments
+            src = a.get("source_flow_instance_uid")
+            if a.get("activated", None) and src in state.flow_states and state.flow_states[src].flow_id != a.get("flow_id"):
+                R.activations.append({"step": R.step, "src": src, "fid": a.get("flow_id")})
+        return o_push(state, event)
+
+    sm._push_internal_event = w_push
 
     def w_slide(state, flow_state, flow_config, head):
         R = REC
@@ -587,6 +719,7 @@ def run_impl(case):
 
     def step(ev, label):
         R.guard = 0
+        R.step = len(obs["steps"])
         st_obs = {"in": label}
         try:
             with contextlib.redirect_stdout(io.StringIO()):
@@ -654,6 +787,7 @@ def run_impl(case):
         REC = None
     obs["records"] = R.records
     obs["ends"] = R.ends
+    obs["activations"] = R.activations
     return obs
 
 
@@ -1101,6 +1235,19 @@ def oracle(case, obs):
                 return f"step {si}: activated flow {fid} is still running ({inst[0]['uid']}) although no running flow activates it"
             if len(inst) > 1 and fid not in early:
                 return f"step {si}: activated flow {fid} has {len(inst)} running instances (restarted more than once): " + ", ".join(x["uid"] for x in inst)
+            # O6: the same clause with the activators taken from the HISTORY of executed `activate` statements (who executed
+            # `activate fid`, and is that instance still running) instead of from the interpreter's own book-keeping
+            # (`child_flow_uids` / `activated`): an activated flow runs only while a flow that activated it is alive
+            if "activations" in obs:
+                alive = sorted({a["src"] for a in obs["activations"] if a["fid"] == fid and a["step"] <= si
+                                and flows.get(a["src"], {}).get("status") in _RUNNING})
+                if inst and not alive:
+                    return (f"step {si}: activated flow {fid} is still running ({inst[0]['uid']}) although every flow that executed "
+                            f"`activate {fid}` has ended")
+                if alive and not inst:
+                    allinst = [f for f in step["flows"] if f["fid"] == fid]
+                    if not (allinst and allinst[-1]["status"] == "STOPPED" and allinst[-1]["uid"] not in started_seen):
+                        return f"step {si}: {alive[0]} executed `activate {fid}` and is still running but {fid} has no running instance"
     return None
 
 
@@ -1195,7 +1342,7 @@ def signature(case, obs, msg):
         return "start-after-parent-ended"
     # an orphan (or a still-running activated flow) is attributed to the finding when it, or one of its ancestors,
     # was created by such a late StartFlow
-    if "is still running" in msg or "has a running activator" in msg or "running instances" in msg or "got no Stop" in msg:
+    if "is still running" in msg or "has a running activator" in msg or "running instances" in msg or "got no Stop" in msg or "still running (" in msg:
         parents = {}
         for s in obs.get("steps", []):
             for f in s.get("flows", []):
